@@ -42,9 +42,11 @@ class Recorder:
 
 
 class Sim:
-    def __init__(self, mgr_name):
+    def __init__(self, mgr_name, scheduler=None):
         self.mgr_name = mgr_name
         self.w = world.World()
+        if scheduler is not None:
+            world.ENV.sched = scheduler     # before the provider exists: its locks become scheduler-aware
         cls = _manager_class(mgr_name)
 
         def hook(comps):
@@ -534,6 +536,12 @@ def run(ctx):
     for mgr_name in (('path-sync', 'path-async') if ctx.quick else managers):
         _bfs(ctx, mgr_name, deep, 8 if ctx.quick else 10, 'deep')
     del ctx.emitted[:]
+    from mcx.checks import c08_sched
+    for sim in _SIMS.values():
+        sim.w.close()
+    _SIMS.clear()
+    c08_sched.run(ctx)
+    del ctx.emitted[:]
     ctx.sample({'history': [['sub', 'A', 5], ['tick', 4], ['tick', 2], ['report', 'metric']]})
     ctx.sample({'history': [['sub', 'B', None], ['fault', 'B', 'refused'], ['report', 'metric'], ['report', 'metric']]})
     ctx.assumptions.append('notifications are counted as "sent" when the provider hands them to the subscriber-facing SOAP client '
@@ -542,6 +550,9 @@ def run(ctx):
 
 
 def replay(ctx, case):
+    if case.get('kind') == 'race':
+        from mcx.checks import c08_sched
+        return c08_sched.replay(ctx, case)
     sim = Sim(case['manager'])
     out = []
     for ev in case['history']:
